@@ -42,7 +42,8 @@ Proof. exact quiescent_clean. Qed.
 Print Assumptions C13_quiescent_clean.
 
 (** every pointer at level 0 leads to a strictly larger key, at upper levels to a key that is not
-    smaller (a new node may point at a marked node of equal key that lingers on an upper level) *)
+    smaller (the word of a node that is not yet linked at that level may point at a marked node of equal
+    key; the chains of linked nodes themselves are strictly sorted on every level: C14_levels_sorted) *)
 Theorem C13_edges_increasing : stmt_edges_increasing_weak.
 Proof. exact edges_increasing_weak. Qed.
 Print Assumptions C13_edges_increasing.
